@@ -839,15 +839,24 @@ impl<'a> Visitor<'a> {
             return None;
         }
 
+        // The extension is appended to the whole basename: `foo.bar` is looked
+        // up as `foo.bar.scss`, never as `foo.scss`.
+        fn with_appended_extension(path: &Path, extension: &str) -> PathBuf {
+            let mut name = path.as_os_str().to_os_string();
+            name.push(".");
+            name.push(extension);
+            PathBuf::from(name)
+        }
+
         macro_rules! try_path_with_extensions {
             ($path:expr) => {
                 let path = $path;
-                try_path!(path.with_extension("import.sass"));
-                try_path!(path.with_extension("import.scss"));
-                try_path!(path.with_extension("import.css"));
-                try_path!(path.with_extension("sass"));
-                try_path!(path.with_extension("scss"));
-                try_path!(path.with_extension("css"));
+                try_path!(with_appended_extension(&path, "import.sass"));
+                try_path!(with_appended_extension(&path, "import.scss"));
+                try_path!(with_appended_extension(&path, "import.css"));
+                try_path!(with_appended_extension(&path, "sass"));
+                try_path!(with_appended_extension(&path, "scss"));
+                try_path!(with_appended_extension(&path, "css"));
             };
         }
 
